@@ -121,10 +121,13 @@ def run(tier, seed, replay=None):
     res.sample({"name": "foo bar", "attribute": _parse_attribute_name("foo bar"), "class_name": _title_format("foo bar")})
     # ---- siblings of one object: distinct JSON names -> distinct attributes, source kept ------------------
     pool = ["a", "b", "a b", "a-b", "a_b", "a\tb", "class", "class_", "def", "$id", "$id_", "a<b", "a_less_than_sign_b", "é", "x y", "x_y", "1", "_1",
-            "", "blank", "self", "items", "日本", "a.b", "a_full_stop_b", "A", "a"]
-    for _ in range(0 if replay else (150 if tier == "quick" else 3000)):
-        names = rng.sample(sorted(set(pool)), rng.randint(2, 5))
-        typed = rng.random() < 0.6
+            "", "blank", "self", "items", "日本", "a.b", "a_full_stop_b", "A", "a", "from_", "in_", "import_", "from", "not_",
+            "o\ufb03ce", "office", "x\u00b2", "x2"]
+    FIXED_SIBLINGS = [["o\ufb03ce", "office"], ["x\u00b2", "x2"], ["cla\u017fs", "a"], ["i\uff4e", "b"], ["\u212bngstrom", "\u00c5ngstrom"], ["from_", "from"],
+                      ["a b", "a  b"], ["amount (net)", "amount(net)"], ["price $", "price$"]]
+    for it in range(0 if replay else (len(FIXED_SIBLINGS) * 2 + (150 if tier == "quick" else 3000))):
+        names = list(FIXED_SIBLINGS[it // 2]) if it < len(FIXED_SIBLINGS) * 2 else rng.sample(sorted(set(pool)), rng.randint(2, 5))
+        typed = (it % 2 == 0) if it < len(FIXED_SIBLINGS) * 2 else rng.random() < 0.6
         declared_n = names if not typed else names[:max(1, len(names) - rng.randint(0, 2))]
         s = {"properties": {n: {"type": rng.choice(["string", "integer"])} for n in declared_n}}
         if typed:
@@ -154,9 +157,25 @@ def run(tier, seed, replay=None):
                            "schema": s, "lost_names": lost,
                            "what": "sibling property names %r collapse: %d names, %d properties (lost %r)" % (names, len(names), len(props), lost)})
         for attr, p in props.items():
+            if p.source in names and attr != _parse_attribute_name(p.source):
+                res.violation({"property": "C12", "kind": "oracle", "schema": s,
+                               "what": "the property for the JSON name %r is stored under the attribute %r, the name mapping gives %r" % (p.source, attr, _parse_attribute_name(p.source))})
             if p.name != attr or p.source not in names:
                 res.violation({"property": "C12", "kind": "oracle", "schema": s, "finding": "C12-K4" if ("" in names and attr == "blank" and p.source == "blank") else None,
                                "what": "property %r does not record its JSON name (source=%r)" % (attr, p.source)})
+        # the generated module records the same JSON names: executed, its class has a property for every name, under the same source
+        if typed and sources == sorted(names) and not any(k2(n) for n in names) and "" not in names:
+            try:
+                from statham.serializers import serialize_python as _sp
+                from props.c02 import exec_fresh
+                ns = exec_fresh(_sp(e))
+                got = sorted(p.source for p in ns["T"].properties.values())
+                stats["modules_sources_checked"] = stats.get("modules_sources_checked", 0) + 1
+                if got != sources:
+                    res.violation({"property": "C12", "kind": "oracle", "schema": s,
+                                   "what": "the class obtained by executing the generated module records the JSON names %r, the parsed class %r" % (got, sources)})
+            except BaseException:  # noqa   (what the generator cannot express is C02's subject)
+                pass
         # the same schema OBJECT met at several positions (what $ref resolution produces) and parsed again: the JSON names stay recorded
         inner = copy.deepcopy(s)
         outer = {"type": "object", "title": "Outer", "properties": {"first": inner, "second": inner}, "additionalProperties": inner}
